@@ -3,5 +3,5 @@ EXTENDS Staking
 \* exhaustive checker view: the recorded history does not influence behaviour; the run is
 \* bounded by MaxH blocks of MaxTx transactions (MaxOps is set above that bound)
 ViewNoHist == <<h, ntx, lockp, bal, stake, slots, deleg, bond, unbond, ustimer, ubtimer, reg, supply,
-                tstake, tdeleg, tbond>>
+                tstake, tdeleg, tbond, burned, xst, xbond, pool, rew>>
 ====
